@@ -36,7 +36,7 @@ Universe == {"f", "g", "h", "a.c", "b.c", "bin", "lib"}
 
 Stacks(dummy) == {<<>>} \cup {<<Locs[i]>> : i \in DOMAIN Locs} \cup {<<Locs[i], Locs[j]>> : i, j \in DOMAIN Locs}
           \cup {<<LF, LGF, LH>>, <<L3, LG, L3>>, <<LU, LF, LU>>}
-Second(dummy) == IF Tier # "thorough" THEN {<<LGF, LH>>, <<>>} ELSE {<<LGF, LH>>, <<>>, <<LF>>, <<L3, LF>>}
+Second(dummy) == IF Tier # "thorough" THEN {<<LGF, LH>>, <<>>} ELSE {<<LGF, LH>>, <<>>, <<L3, LF>>}
 Profiles(dummy) == { << Smp(a, <<1, 3>>, <<SLab("k", <<"x">>)>>, <<>>), Smp(b, <<2, -2>>, <<>>, <<>>) >> : a \in Stacks(0), b \in Second(0) }
 
 None == [on |-> FALSE, m |-> {}]
@@ -47,7 +47,8 @@ Singles(dummy) == { [Opt0 EXCEPT ![o] = Rx(S)] : o \in {"focus", "ignore", "hide
                                           S \in (IF Tier # "thorough" THEN {T \in SUBSET Universe : Cardinality(T) <= 2} ELSE SUBSET Universe) }
 OptPairs == { <<"focus", "ignore">>, <<"focus", "hide">>, <<"focus", "show">>, <<"ignore", "hide">>, <<"hide", "show">>,
               <<"show", "showfrom">>, <<"hide", "showfrom">>, <<"focus", "showfrom">>, <<"ignore", "show">>, <<"ignore", "showfrom">> }
-Pairs(dummy) == { [Opt0 EXCEPT ![p[1]] = Rx(S1), ![p[2]] = Rx(S2)] : p \in OptPairs, S1 \in Small(0) \ {{}}, S2 \in Small(0) \ {{}} }
+\* (thorough: the first option of a pair ranges over single names, the second over sets of up to two: TLC caps an enumerated set at 10^6)
+Pairs(dummy) == { [Opt0 EXCEPT ![p[1]] = Rx(S1), ![p[2]] = Rx(S2)] : p \in OptPairs, S1 \in {{n} : n \in Universe}, S2 \in Small(0) \ {{}} }
 Options(dummy) == Singles(0) \cup Pairs(0)
 NameCases(dummy) == { [kind |-> "name", samples |-> p, opt |-> o] : p \in Profiles(0), o \in Options(0) }
 
